@@ -834,6 +834,11 @@ func TestVerifC29(t *testing.T) {
 			ev.ReplayCase(&c)
 			e := envOf(c.UID)
 			c29RunPart(r, e, e.ctx(c.N, c.Form, c.Origin, c.NilMask), &c, &a, &b)
+		case "pcm-history":
+			var c c29HCase
+			ev.ReplayCase(&c)
+			w := &c29HWorld{envs: map[string]*c29Env{"eth": envs[0], "icon": envs[1]}, sigs: map[string][]byte{}, pcs: map[[2]int]module.BTPProofContext{}}
+			w.runHistory(r, &c29HStats{}, &c)
 		case "pcm":
 			var c c29PCMCase
 			ev.ReplayCase(&c)
@@ -857,7 +862,7 @@ func TestVerifC29(t *testing.T) {
 	nilFullN := r.Pick(2, 3) // ... with the full kind alphabet up to this n, {nil, valid, every wrong index, foreign} above
 	mutPositions := r.Pick(1, 2)
 	setRule := func(prodLast int) {
-		r.Rule(fmt.Sprintf("network-type modules eth+icon; n validators with fixed keys; per index a kind from {nil, valid, signature of every other validator j!=i (wrong index), foreign key, validator i over another decision, 65 zero bytes, S bit flipped, V flipped, 64-byte no-V}. (A) full product of kinds: n<=%d on all 12 variants {compressed,uncompressed,mixed keys}x{built,decoded context}x{wire bytes, NewProof+Add}, n<=%d on 2 (quick) / 4 (thorough) variants, n<=%d on the primary variant of the eth module (n=6 only when stages A-F took < 4 min, decided before it starts); (B) n=1..7: every signer subset x every choice of <=%d mutated positions x every non-valid kind; (C) every subset truncated to every shorter length and extended by 1-2 entries beyond n; (D) VerifyPart for every signer/kind x every claimed index in -2..n+1 and 2^31; (E) honest NewProofPart/Add/Bytes path for every signer subset n<=7; (G) validator sets in which every non-empty subset of the validators (n<=%d) has a NIL key (part of n, cannot sign), context built from keys and decoded from bytes: full product of kinds per index (all kinds for n<=%d, {nil, valid, every wrong index, foreign} above), plus VerifyPart/NewProofPart on them; (F) proofContextMap.Verify over 2 network types x (all 16 signer subsets x 7 things signed [the decision, other source network, other network type id, other height, other round, other NTS hash, other validator set]) for the first x (3 quick / 5 thorough subsets x 4 / 7 things signed) for the second x 5 proof-list shapes x digest with/without a context-less third type. A case is non-trivial if the vector has at least one non-nil entry; distinct = (module,n,nil-key mask,vector).", prodAll, prodSome, prodLast, mutPositions, nilMaxN, nilFullN))
+		r.Rule(fmt.Sprintf("network-type modules eth+icon; n validators with fixed keys; per index a kind from {nil, valid, signature of every other validator j!=i (wrong index), foreign key, validator i over another decision, 65 zero bytes, S bit flipped, V flipped, 64-byte no-V}. (A) full product of kinds: n<=%d on all 12 variants {compressed,uncompressed,mixed keys}x{built,decoded context}x{wire bytes, NewProof+Add}, n<=%d on 2 (quick) / 4 (thorough) variants, n<=%d on the primary variant of the eth module (n=6 only when stages A-F took < 4 min, decided before it starts); (B) n=1..7: every signer subset x every choice of <=%d mutated positions x every non-valid kind; (C) every subset truncated to every shorter length and extended by 1-2 entries beyond n; (D) VerifyPart for every signer/kind x every claimed index in -2..n+1 and 2^31; (E) honest NewProofPart/Add/Bytes path for every signer subset n<=7; (G) validator sets in which every non-empty subset of the validators (n<=%d) has a NIL key (part of n, cannot sign), context built from keys and decoded from bytes: full product of kinds per index (all kinds for n<=%d, {nil, valid, every wrong index, foreign} above), plus VerifyPart/NewProofPart on them; (F) proofContextMap.Verify over 2 network types x (all 16 signer subsets x 7 things signed [the decision, other source network, other network type id, other height, other round, other NTS hash, other validator set]) for the first x (3 quick / 5 thorough subsets x 4 / 7 things signed) for the second x 5 proof-list shapes x digest with/without a context-less third type. (H) proofContextMap histories: first map over network types {1}, {1,2}, {1,2,3} (eth, icon, eth; 4- and 3-validator sets by version), then every sequence of <= 2 (thorough 3) Update calls over the block-section alphabet {empty, message-only(nt), new proof context / opening (nt), inactivation (nt), and all two-element combinations on distinct network types} built by the real SectionBuilder; after every Update every map of the history (new map, receiver, older maps) must still know exactly the network types and validator sets of ITS model and must accept a proof list for a block digest iff every network type it knows has a proof with > 2/3 valid signatures at own indices (7 proof kinds per network type, missing / empty / surplus lists). A case is non-trivial if the vector has at least one non-nil entry; distinct = (module,n,nil-key mask,vector).", prodAll, prodSome, prodLast, mutPositions, nilMaxN, nilFullN))
 	}
 	setRule(prodSome)
 	r.Assume("signatures are produced with fixed private keys (RFC 6979 deterministic); forgery is represented by the listed mutation alphabet, not by searching the key space",
@@ -1330,6 +1335,13 @@ func TestVerifC29(t *testing.T) {
 			}
 			seen[h] = mu
 		}
+	}
+
+	// ---- stage H: histories of proofContextMap.Update (copy-on-write, every map judged against its own model)
+	pcmHistComplete := c29PCMTier(r, envs)
+	r.Set("pcm_histories_complete", pcmHistComplete)
+	if !pcmHistComplete {
+		r.Cap("proofContextMap history tier incomplete")
 	}
 
 	// ---- stage A (last part): the largest product, run last so that a cap only cuts this one
